@@ -516,7 +516,12 @@ TV_INSTANCES = [  # (reactant compositions, product compositions) with a non-int
     ([{1: 1, 2: "1/2"}, {2: 1}], [{1: 1, 2: 2}]),
     ([{1: 2, 2: 1}, {1: 1, 2: "3/2"}], [{1: 1}, {2: 1}]),
     ([{1: "3/2", 2: 1}], [{1: 1}, {1: 1, 2: 2}]),
+    # trace-level amounts (2e-10, 1e-10: an additive at the level of impurities) decide the ratio: 2 feed -> 4 lean + pure
+    ([{1: 3, 2: "1/5000000000"}], [{1: 1, 2: "1/10000000000"}, {1: 2}]),
+    # ten significant digits: 1.000000001 and 2.000000002
+    ([{1: "1000000001/1000000000", 2: 1}], [{1: "2000000002/1000000000"}, {2: 2}]),
 ]
+TV_EXACT_ONLY = {4: ("numpy.float32",), 5: ("numpy.float32",)}  # amounts that type cannot hold
 TV_TYPES = ["float", "Fraction", "Decimal", "sympy.Rational", "numpy.float32", "numpy.float64"]
 
 
@@ -539,6 +544,8 @@ def check_types(res, i, tname, mode):
     from chempy import balance_stoichiometry, Substance
 
     Rc, Pc = TV_INSTANCES[i]
+    if tname in TV_EXACT_ONLY.get(i, ()):
+        return
     names = ["r%d" % k for k in range(len(Rc))] + ["p%d" % k for k in range(len(Pc))]
     comps = Rc + Pc
     subs = {nm: Substance(nm, composition={k: _tv_value(v, tname) for k, v in c.items()}) for nm, c in zip(names, comps)}
@@ -577,6 +584,62 @@ def check_types(res, i, tname, mode):
     if bad:
         res.violation("C02|mode=%r|composition-amounts-as-%s|%s" % (mode, tname, bad.split(" %")[0].split(" [")[0][:40]), "balance_stoichiometry with amounts given as %s (%r -> %r, underdetermined=%r) = %r: %s" % (
             tname, Rc, Pc, mode, got, bad), case, got, [abs(t) for t in primitive(ns[0])] if single else None)
+
+
+SK_CASES = ["duplicate-reordered", "duplicate-same-object", "no-duplicate", "lookalike-dot:\u22c5", "lookalike-dot:\u2219", "lookalike-dot:\u2022", "hydrate-dot:..", "hydrate-dot:\u00b7"]
+
+
+def check_substance_keys(res, which, mode):
+    """species given as Substance objects (substances={s: s}): a substance present on both sides as two equal objects whose
+    composition dictionaries were filled in different orders is the same substance (refused, or a balanced answer - never an
+    unbalanced one); and a hydrate written with a dot look-alike is refused or read as the hydrate, never as something else"""
+    import sympy
+    from chempy import balance_stoichiometry, Substance
+
+    case = dict(layer="SK", which=which, mode=repr(mode))
+    res.states += 1
+    res.transitions += 1
+    res.evaluations += 1
+    res.nontrivial += 1
+    if which.endswith("-dot:" + which.split(":")[-1]) and ":" in which:
+        dot = which.split(":", 1)[1]
+        R, P = ["CuSO4%s5H2O" % dot], ["CuSO4", "H2O", "O2"]
+        comp = {R[0]: {29: 1, 16: 1, 8: 9, 1: 10}, "CuSO4": {29: 1, 16: 1, 8: 4}, "H2O": {1: 2, 8: 1}, "O2": {8: 2}}
+        kw = {}
+        must_answer = False
+    else:
+        w1 = Substance("H2O", composition={1: 2, 8: 1})
+        w2 = w1 if which == "duplicate-same-object" else Substance("H2O", composition=dict([(8, 1), (1, 2)]))
+        C, CO, H2 = Substance("C", composition={6: 1}), Substance("CO", composition={6: 1, 8: 1}), Substance("H2", composition={1: 2})
+        if which == "no-duplicate":
+            R, P = [w1, C], [CO, H2]
+        else:
+            R, P = [w1, C], [w2, CO, H2]
+        comp = {s: dict(s.composition) for s in R + P}
+        kw = dict(substances={s: s for s in R + P})
+        must_answer = which == "no-duplicate"
+    try:
+        r, p = balance_stoichiometry(R, P, underdetermined=mode, **kw)
+        got = ("ok", [str(r[k]) for k in R], [str(p[k]) for k in P])
+    except Exception as e:
+        r = p = None
+        got = ("EXC " + type(e).__name__, str(e)[:60])
+    bad = None
+    if r is None:
+        if must_answer:
+            bad = "refused a single-ray reaction"
+    else:
+        keys = sorted({k for c in comp.values() for k in c})
+        for k in keys:
+            tot = sum(sympy.sympify(p[s]) * comp[s].get(k, 0) for s in P) - sum(sympy.sympify(r[s]) * comp[s].get(k, 0) for s in R)
+            if sympy.expand(tot) != 0:
+                bad = "unbalanced"
+        if bad is None and must_answer and got != ("ok", ["1", "1"], ["1", "1"]):
+            bad = "not the unique minimal solution"
+    res.outcomes["substance-keys:%s:%s" % (which.split(":")[0], "ok" if bad is None else "WRONG")] += 1
+    if bad:
+        res.violation("C02|mode=%r|substance-keys|%s|%s" % (mode, which.split(":")[0], bad), "balance_stoichiometry(%r, %r, underdetermined=%r) [%s] = %r: %s" % (
+            [str(getattr(x, "name", x)) for x in R], [str(getattr(x, "name", x)) for x in P], mode, which, got, bad), case, got, None)
 
 
 DF_POOL = ["CO", "H2", "CH4", "CO2", "H2O", "O2", "C"]
@@ -645,6 +708,10 @@ def run_chunk(chunk, tier):
         for tname in TV_TYPES:
             for mode in MODES:
                 check_types(res, first, tname, mode)
+        if first == 0:
+            for which in SK_CASES:
+                for mode in MODES:
+                    check_substance_keys(res, which, mode)
         res.sample(dict(layer="TV", instance=TV_INSTANCES[first], types=TV_TYPES))
         return res
     if kind == "DF":
@@ -693,6 +760,8 @@ def replay(case):
         check_big(res, case["i"], case["order"])
     elif case["layer"] == "TV":
         check_types(res, case["i"], case["tname"], {"True": True, "False": False, "None": None}[case["mode"]])
+    elif case["layer"] == "SK":
+        check_substance_keys(res, case["which"], {"True": True, "False": False, "None": None}[case["mode"]])
     elif case["layer"] == "DF":
         check_duplicates_formula(res, tuple(case["R"]), tuple(case["P"]))
     elif case["layer"] == "D":
